@@ -186,6 +186,36 @@ pub struct F29 {
     pub d: Vec<u32>,
 }
 
+/// a string that serializes itself through `Serializer::collect_str` (the way chrono / url / uuid style types and
+/// `serialize_with` helpers do); deserialized as a plain string
+#[derive(Debug, Clone, PartialEq, Default, Deserialize)]
+#[serde(transparent)]
+pub struct Disp(pub String);
+impl Serialize for Disp {
+    fn serialize<S: serde::Serializer>(&self, s: S) -> Result<S::Ok, S::Error> {
+        s.collect_str(&self.0)
+    }
+}
+/// Display-serialized strings in attribute, attribute-list, element and list-item position
+#[derive(Debug, Clone, PartialEq, Serialize, Deserialize)]
+pub struct F30 {
+    #[serde(rename = "@a")]
+    pub a: Disp,
+    #[serde(rename = "@l", default)]
+    pub l: Vec<Disp>,
+    pub e: Disp,
+    #[serde(default)]
+    pub item: Vec<Disp>,
+}
+/// ... and as the text content next to an attribute
+#[derive(Debug, Clone, PartialEq, Serialize, Deserialize)]
+pub struct F31 {
+    #[serde(rename = "@k")]
+    pub k: Disp,
+    #[serde(rename = "$text", default)]
+    pub t: Disp,
+}
+
 /// list of strings in an attribute (items escaped for the attribute quote) next to another attribute
 #[derive(Debug, Clone, PartialEq, Serialize, Deserialize)]
 pub struct F24 {
@@ -285,7 +315,14 @@ pub struct H06 {
     pub a: Hostile,
 }
 
-pub const TYPES: &[&str] = &["F01", "F02", "F03", "F04", "F05", "F07", "F08", "F11", "F15", "F16", "F17", "F18", "F19", "F20", "F22", "F23", "F24", "F25", "F26", "F27", "F28", "F29", "H01", "H02", "H05", "H06"];
+/// mixed content whose items may write nothing (an absent item between a text and an element)
+#[derive(Debug, Clone, PartialEq, Serialize, Deserialize)]
+pub struct H07 {
+    #[serde(rename = "$value", default)]
+    pub v: Vec<Option<Choice>>,
+}
+
+pub const TYPES: &[&str] = &["F01", "F02", "F03", "F04", "F05", "F07", "F08", "F11", "F15", "F16", "F17", "F18", "F19", "F20", "F22", "F23", "F24", "F25", "F26", "F27", "F28", "F29", "F30", "F31", "H01", "H02", "H05", "H06", "H07"];
 
 /// Apply `$body` with `T` bound to the family type named `$name`.
 #[macro_export]
@@ -312,12 +349,15 @@ macro_rules! with_type {
             "F25" => { type $T = $crate::family::F25; $body }
             "F26" => { type $T = $crate::family::F26; $body }
             "F29" => { type $T = $crate::family::F29; $body }
+            "F30" => { type $T = $crate::family::F30; $body }
+            "F31" => { type $T = $crate::family::F31; $body }
             "F27" => { type $T = $crate::family::F27; $body }
             "F28" => { type $T = $crate::family::F28; $body }
             "H01" => { type $T = $crate::family::H01; $body }
             "H02" => { type $T = $crate::family::H02; $body }
             "H05" => { type $T = $crate::family::H05; $body }
             "H06" => { type $T = $crate::family::H06; $body }
+            "H07" => { type $T = $crate::family::H07; $body }
             other => panic!("unknown family type {other}"),
         }
     };
